@@ -206,7 +206,7 @@ func TestVerifC08(t *testing.T) {
 		check(c)
 	}
 
-	n := 1200
+	n := 600
 	if vThorough() {
 		n = 25000
 	}
